@@ -73,6 +73,10 @@ type Pipe struct {
 	// SplitAtoms counts atoms (escape sequences) that a small read size forced the pipe to cut.
 	SplitAtoms int
 
+	// WriteFault, when set, is asked about every Write before it is recorded: failWrite makes the
+	// write return ErrWrite (nothing reaches the device); eofAfter lets the write through and then
+	// ends the stream (the device drops the session in reaction to what it received).
+	WriteFault func(b []byte) (failWrite, eofAfter bool)
 	// OnWrite is the device logic: called with the pipe locked for every Write.
 	OnWrite func(b []byte)
 }
@@ -263,11 +267,23 @@ func (p *Pipe) Write(b []byte) error {
 	if p.WriteErrAfter >= 0 && p.Written+len(b) > p.WriteErrAfter {
 		return ErrWrite
 	}
+	eofAfter := false
+	if p.WriteFault != nil {
+		var fail bool
+		fail, eofAfter = p.WriteFault(b)
+		if fail {
+			return ErrWrite
+		}
+	}
 	p.Writes = append(p.Writes, WriteEvent{Data: append([]byte{}, b...), EmittedBefore: p.Emitted,
 		DeliveredBefore: p.Delivered, ReadsBefore: p.Reads})
 	p.Written += len(b)
 	if p.OnWrite != nil {
 		p.OnWrite(b)
+	}
+	if eofAfter {
+		p.EOFAt = p.Delivered
+		p.cond.Broadcast()
 	}
 	return nil
 }
